@@ -102,16 +102,23 @@ theorem end_code (w : World) (p : Pid) (val : Int) (stopped : Bool) :
 
 /-! ### a finished process stays silent in its own record, and never executes unless restarted -/
 
-/-- **I_dead, record part.**  The record of every finished process is clean: nothing held, nothing awaited, nobody
-    registered as waiting for it, not suspended. -/
+/-- **I_dead, record part.**  The record of every process that is not running awaits nothing and is not suspended;
+    the record of every finished process is completely clean: nothing held, nothing awaited, nobody registered as
+    waiting for it, not suspended. -/
 theorem deadRec_iff (w : World) :
-    DeadRec w ↔ ∀ p, (w.proc p).status = .finished →
-      (w.proc p).held = [] ∧ (w.proc p).awaits = [] ∧ (w.proc p).waiters = [] ∧ (w.proc p).blocked = none :=
+    DeadRec w ↔ ∀ p, (w.proc p).status ≠ .running →
+      (w.proc p).awaits = [] ∧ (w.proc p).blocked = none ∧
+      ((w.proc p).status = .finished → (w.proc p).held = [] ∧ (w.proc p).waiters = []) :=
   Iff.rfl
 
-/-- it holds in every world without finished processes -/
-theorem deadRec_init (w : World) (h : ∀ p, (w.proc p).status ≠ .finished) : DeadRec w :=
-  fun p hp => absurd hp (h p)
+theorem deadRec_finished {w : World} (h : DeadRec w) (p : Pid) (hp : (w.proc p).status = .finished) :
+    (w.proc p).held = [] ∧ (w.proc p).awaits = [] ∧ (w.proc p).waiters = [] ∧ (w.proc p).blocked = none :=
+  h.clean p hp
+
+/-- it holds in every world in which the processes that are not running have empty records -/
+theorem deadRec_init (w : World) (h : ∀ p, (w.proc p).status ≠ .running →
+    (w.proc p).awaits = [] ∧ (w.proc p).blocked = none ∧ (w.proc p).held = [] ∧ (w.proc p).waiters = []) : DeadRec w :=
+  fun p hp => ⟨(h p hp).1, (h p hp).2.1, fun _ => (h p hp).2.2⟩
 
 /-- every command executed by a running process keeps it -/
 theorem deadRec_execCmd {w : World} (h : DeadRec w) (p : Pid) (hrun : (w.proc p).status = .running) (c : Cmd) :
@@ -165,11 +172,11 @@ example : ((finishProc demoWaiting 0 7 true).ev.pending.map fun e => (e.item.a, 
 example : (finishProc demoWaiting 0 7 true).holder 0 = none ∧
     ((finishProc demoWaiting 0 7 true).proc 0).exitVal = 7 ∧
     ((finishProc demoWaiting 0 7 true).proc 0).status = .finished := by decide
-example : DeadRec demoWorld := deadRec_init _ (fun p => by
+example : DeadRec demoWorld := deadRec_init _ (fun p hp => by
   match p with
-  | 0 => decide
-  | 1 => decide
-  | 2 => decide
+  | 0 => exact absurd (by decide) hp
+  | 1 => exact absurd (by decide) hp
+  | 2 => exact absurd (by decide) hp
   | n + 3 => simp [demoWorld, World.proc])
 
 end CimbaModel.Props.C09
